@@ -164,6 +164,29 @@ def opsFor (ver : Ver) : List (String × Op) := [
               let loc ← mkLoc bs st
               let (sh, _) ← incorporateTranscript ver par ref v loc none
               pure s!"{showShown sh} | cds none"))),
+  ("hap", do
+      let par ← pPar; let ref ← pSeq
+      let rawHaps ← pList (pList pRawVar)
+      let rawMembers ← pList (do
+        let kind ← tok
+        if kind ≠ "G" ∧ kind ≠ "F" then throw s!"member? {kind}"
+        let leaves ← pList (do let st ← pStrand; let bs ← pBlocks; pure (st, bs))
+        pure (Member.mk (kind = "G") leaves))
+      let varsOk := rawHaps.all fun h => h.all fun r => r.1 = r.2.1 || r.2.1 < r.1 ||
+                      (match par with | .whole => true | .chunk _ => inWin par ref.length r.1 r.2.1)
+      let leavesOk := rawMembers.all fun m => !m.leaves.isEmpty && m.leaves.all fun l => locOk par ref l.1 l.2
+      if !varsOk || !leavesOk || rawHaps.isEmpty then pure unmodelled else
+      pure (showR id (do
+        let haps ← rawHaps.mapM (fun h => do
+          let vs ← h.mapM (fun r => mkVar par ref.length r.1 r.2.1 r.2.2)
+          mkColl vs)
+        let d ← hapMapping ver par ref haps rawMembers
+        let parts := (List.range haps.length).map fun i =>
+          let b := bucket d i
+          " ".intercalate (s!"hap {i} {b.length}" :: b.map fun e =>
+            " ".intercalate (s!"member {e.1} {e.2.length}" :: e.2.map fun sh =>
+              s!"{strandSym sh.strand} {sh.chrom.length} {showBlocks sh.chrom} {showSeq sh.seq}"))
+        pure (" ".intercalate parts)))),
   ("vcf", do
       let recs ← pList pVcfRec
       match convertVcf ver recs with
